@@ -18,7 +18,7 @@ namespace vh {
 using namespace ipr;
 
 enum Op : std::uint8_t {
-   N_IDENT, N_OPERATOR, N_CONVERSION, N_CTOR, N_DTOR, N_SUFFIX,
+   N_IDENT, N_OPERATOR, N_CONVERSION, N_CTOR, N_DTOR, N_SUFFIX, N_TEMPLATE_ID, N_TYPE_ID,
    T_BUILTIN, T_POINTER, T_REFERENCE, T_RVREF, T_ARRAY, T_QUALIFIED, T_PRODUCT, T_FUNCTION, T_FUNCTION_THROWS, T_PTR_TO_MEMBER, T_FORALL,
    T_CLASS, T_UNION, T_ENUM, T_NAMESPACE, T_AS_TYPE, T_DECLTYPE, T_AUTO,
    X_LITERAL, X_ID_EXPR, X_ID_DECL, X_SYMBOL, X_UNARY, X_BINARY, X_CONDITIONAL, X_XLIST, X_CALL, X_CAST, X_ENCLOSURE, X_CONSTRUCTION, X_MEMBER_INIT, X_NEW,
@@ -31,7 +31,7 @@ enum Op : std::uint8_t {
 };
 inline const char* op_name(int o)
 {
-   static const char* n[] = { "ident", "operator", "conversion", "ctor", "dtor", "suffix",
+   static const char* n[] = { "ident", "operator", "conversion", "ctor", "dtor", "suffix", "template-id", "type-id",
       "builtin", "pointer", "reference", "rvref", "array", "qualified", "product", "function", "function-throws", "ptr-to-member", "forall",
       "class", "union", "enum", "namespace", "as-type", "decltype", "auto",
       "literal", "id-expr", "id-decl", "symbol", "unary", "binary", "conditional", "xlist", "call", "cast", "enclosure", "construction", "member-init", "new",
@@ -145,6 +145,8 @@ struct Exec {
       case N_CTOR: v.n = &lex.get_ctor_name(T(st.a)); break;
       case N_DTOR: v.n = &lex.get_dtor_name(T(st.a)); break;
       case N_SUFFIX: v.n = &lex.get_suffix(*static_cast<const Identifier*>(&N(st.a))); break;
+      case N_TEMPLATE_ID: v.n = &lex.get_template_id(X(st.a), *static_cast<const Expr_list*>(&X(st.b))); break;
+      case N_TYPE_ID: v.n = &T(st.a).name(); break;         // a compound type names itself by its type-id
       case T_BUILTIN: {
          const Type* b[] = { &L.void_type(), &L.bool_type(), &L.char_type(), &L.int_type(), &L.uint_type(), &L.long_type(), &L.double_type(), &L.float_type(), &L.short_type(),
                              &L.wchar_t_type(), &L.long_long_type(), &L.uchar_type(), &L.typename_type(), &L.class_type(), &L.ellipsis_type() };
@@ -325,8 +327,19 @@ struct Gen {
       for (auto op : { "+", "()", "new[]", "<=>", "co_await" }) { Step st { N_OPERATOR }; st.str = op; names.push_back(push(st)); }
       { Step st { N_CONVERSION }; st.a = types[1]; names.push_back(push(st)); }
       { Step st { N_SUFFIX }; st.a = idents[0]; names.push_back(push(st)); }
+      // constructor / destructor names, a compound type's own type-id: declarations are named by them, expressions mention them
+      { Step st { N_CTOR }; st.a = types[3]; names.push_back(push(st)); }
+      { Step st { N_DTOR }; st.a = types[3]; names.push_back(push(st)); }
+      { Step pt { T_POINTER }; pt.a = types[2]; int q = push(pt); Step st { N_TYPE_ID }; st.a = q; names.push_back(push(st)); }
       for (int k = 0; k < 6; ++k) exprs.push_back(literal());
       for (int k = 0; k < 4; ++k) { Step st { X_ID_EXPR }; st.a = pick(idents); st.b = rng.chance(50) ? pick(types) : -1; exprs.push_back(push(st)); }
+      // template-ids: the name printer accepts one whose template is written as a qualified name (scope-ref); one whose
+      // template is a plain id-expression, or another template-id, must be refused wherever it is mentioned
+      { Step l { X_XLIST }; l.list = { types[3], types[6], exprs[0] }; int args = push(l);
+        Step q { X_BINARY }; q.num = n_binary - 1 /* make_scope_ref */; q.a = exprs[6]; q.b = exprs[7]; int sr = push(q);
+        Step st { N_TEMPLATE_ID }; st.a = sr; st.b = args; names.push_back(push(st));
+        Step l0 { X_XLIST }; int none = push(l0); Step s0 { N_TEMPLATE_ID }; s0.a = sr; s0.b = none; names.push_back(push(s0));
+        if (o.unsupported) { Step s2 { N_TEMPLATE_ID }; s2.a = exprs[8]; s2.b = args; names.push_back(push(s2)); } }
    }
    int literal()
    {
@@ -345,7 +358,7 @@ struct Gen {
       case 2: st.op = T_RVREF; st.a = type(depth + 1); break;
       case 3: st.op = T_ARRAY; st.a = type(depth + 1); st.b = pick(exprs); break;
       case 4: st.op = T_QUALIFIED; st.a = type(depth + 1); st.num = 1 + (long long)rng.below(7); break;
-      case 5: { int prod = product(depth + 1); st.op = rng.chance(30) ? T_FUNCTION_THROWS : T_FUNCTION; st.a = prod; st.b = type(depth + 1); if (st.op == T_FUNCTION_THROWS) st.c = pick(exprs); break; }
+      case 5: { int prod = product(depth + 1); st.op = rng.chance(30) ? T_FUNCTION_THROWS : T_FUNCTION; st.a = prod; st.b = type(depth + 1); if (st.op == T_FUNCTION_THROWS) st.c = rng.chance(30) ? pick(types) /* throw(T) */ : pick(exprs); break; }
       case 6: if (!udt_types.empty()) { st.op = T_PTR_TO_MEMBER; st.a = pick(udt_types); st.b = type(depth + 1); break; } [[fallthrough]];
       case 7: if (o.unsupported && rng.chance(30)) { st.op = rng.chance(50) ? T_DECLTYPE : T_AUTO; if (st.op == T_DECLTYPE) st.a = pick(exprs); break; } [[fallthrough]];
       default: st.op = T_AS_TYPE; st.a = pick(exprs); break;
@@ -353,6 +366,11 @@ struct Gen {
       int i = push(st);
       if (rng.chance(50)) types.push_back(i);
       return i;
+   }
+   int compound_non_udt_type()
+   {
+      Step st { T_POINTER }; st.op = rng.chance(50) ? T_POINTER : T_REFERENCE; st.a = types[rng.below(8)];
+      return push(st);
    }
    int product(int depth)
    {
@@ -447,6 +465,7 @@ struct Gen {
    int var_decl(int scope)
    {
       Step st { D_VAR }; st.a = scope; st.b = rng.chance(70) ? fresh_ident() : pick(names); st.c = type(); st.d = rng.chance(50) ? expr() : -1; st.num = rng.chance(30) ? (long long)(rng.below(8)) : 0;
+      if (st.d >= 0 && rng.chance(8)) st.d = (!var_decls.empty() && rng.chance(40)) ? pick(var_decls) : type();      // initializers that are types or declarations
       int i = mutate(scope < 0 ? -2 : scope, st);
       var_decls.push_back(i);
       return i;
@@ -461,7 +480,9 @@ struct Gen {
       case 4: i = udt(scope, depth); break;
       case 5: case 6: i = fundecl(scope, depth); break;
       case 7: i = templ(scope); break;
-      case 8: st.op = D_TYPEDECL; st.a = scope; st.b = fresh_ident(); st.c = pick(types); i = mutate(scope < 0 ? -2 : scope, st); break;
+      case 8: st.op = D_TYPEDECL; st.a = scope; st.b = fresh_ident(); st.c = pick(types);
+              if (rng.chance(40)) { if (rng.chance(35)) { Step dt { T_DECLTYPE }; dt.a = pick(exprs); st.d = push(dt); } else st.d = type(); }
+              i = mutate(scope < 0 ? -2 : scope, st); break;
       default: i = var_decl(scope); break;
       }
       maybe_locate(i);
@@ -503,6 +524,7 @@ struct Gen {
       int m = push(mp);
       for (int k = 0; k < np; ++k) { Step pa { M_PARAM }; pa.a = m; pa.b = fresh_ident(); pa.c = ptypes[std::size_t(k)]; pa.d = rng.chance(30) ? expr() : -1; mutate(m, pa); }
       int body = depth < o.max_depth ? block(scope, depth + 1) : literal();
+      if (rng.chance(6)) body = (!var_decls.empty() && rng.chance(50)) ? pick(var_decls) : type();      // mapping results of every super-kind
       { Step mb { M_BODY }; mb.a = m; mb.b = body; mutate(m, mb); }
       Step fd { D_FUNDECL }; fd.a = scope; fd.b = rng.chance(70) ? fresh_ident() : pick(names); fd.c = fty; fd.d = m; fd.e = last_mutation[m]; fd.num = rng.chance(30) ? (long long)rng.below(16) : 0;
       return mutate(scope < 0 ? -2 : scope, fd);
@@ -516,7 +538,9 @@ struct Gen {
       { Step pa { M_PARAM }; pa.a = m; pa.b = fresh_ident(); pa.c = pr.list[0]; mutate(m, pa); }
       // the result of a template is printed as a definition: never a user-defined type (it may be the one being defined
       // around this template, and a graph that is cyclic through definition positions has no finite rendering)
-      { Step mb { M_BODY }; mb.a = m; mb.b = rng.chance(50) ? types[rng.below(8)] : expr(); mutate(m, mb); }
+      { Step mb { M_BODY }; mb.a = m; mb.b = rng.chance(50) ? types[rng.below(8)] : expr();
+        if (rng.chance(20)) mb.b = (!var_decls.empty() && rng.chance(50)) ? pick(var_decls) : compound_non_udt_type();
+        mutate(m, mb); }
       Step td { D_TEMPLATE }; td.a = scope; td.b = fresh_ident(); td.c = fty; td.d = m; td.e = last_mutation[m];
       return mutate(scope < 0 ? -2 : scope, td);
    }
